@@ -16,12 +16,13 @@ pub fn union_type_all<I>(db: &DbIndex, types: I) -> LuaType
 where
     I: IntoIterator<Item = LuaType>,
 {
+    let types: Vec<LuaType> = types.into_iter().collect();
     let mut result_types = Vec::new();
-    for typ in types {
+    for typ in &types {
         match typ {
             LuaType::Never => {}
             LuaType::Any => return LuaType::Any,
-            _ => result_types.push(typ),
+            _ => result_types.push(typ.clone()),
         }
     }
     if result_types.is_empty() {
@@ -33,8 +34,10 @@ where
         return LuaType::from_vec(result_types);
     }
 
+    // Fold over the batch as given: dropping `never` first is not neutral when the
+    // accumulated type is an alias (`union_type` matches on the alias origin).
     let mut result = LuaType::Never;
-    for typ in result_types {
+    for typ in types {
         result = union_type(db, result, typ);
     }
     result
